@@ -212,6 +212,59 @@ func TestC17(t *testing.T) {
 				failRapid(rt, r, &core.Case{Prop: "C17", Kind: "doc", In: doc}, err)
 			}
 		})
-		_ = fmt.Sprint
+		// 4. deep trees: invalid UTF-8 at the bottom of nesting up to and beyond the decoder's
+		// limit (the helpers recurse on their own and must convert at every depth)
+		if e.enumStage("deep-trees", "7 array/object mixtures x depths {100, 9999, 10000} decoded from documents, and hand-built trees of depth {10001, 20000, 100000}: invalid UTF-8 in the innermost string value and key", true) {
+			idx := 0
+		deep:
+			for _, pat := range gen.NestPatterns {
+				for _, d := range []int{100, 9999, 10000} {
+					for _, bottom := range []string{"\"a\xffb\"", "{\"k\xfe\":\"v\xc0\xaf\"}", "[\"\xed\xa0\x80\",1]"} {
+						idx++
+						if !e.cfg.Mine(idx) {
+							continue
+						}
+						dd := d
+						if bottom[0] != '"' {
+							dd-- // the bottom is a container itself
+						}
+						doc := gen.NestSpec{Depth: dd, Pattern: pat, Close: dd, Bottom: bottom}.Build()
+						r.Begin("doc", doc)
+						err := core.Catch(func() error {
+							tree, _, derr := ref.Decode(doc)
+							if derr != nil {
+								return fmt.Errorf("reference decoder rejects a %d-deep document: %v", d, derr)
+							}
+							if _, err := c17Tree(tree); err != nil {
+								return err
+							}
+							_, err := c17Doc(doc)
+							return err
+						})
+						r.Eval(core.Hash(doc), true)
+						r.Label(fmt.Sprintf("deep.depth=%d", d))
+						if err != nil {
+							r.Fail(&core.Case{Prop: "C17", Kind: "doc", In: doc}, err)
+							break deep
+						}
+					}
+				}
+			}
+			for _, d := range []int{10001, 20000, 100000} {
+				idx++
+				if !e.cfg.Mine(idx) || r.Failed() {
+					continue
+				}
+				// hand-built: alternating slices and maps, deeper than any decoder output
+				c := &core.Case{Prop: "C17", Kind: "built-tree", Ints: []int64{int64(d)}}
+				r.BeginCase(c)
+				err := core.Catch(func() error { return c17BuiltTree(d) })
+				r.Eval(core.HashInts(0xdee9, int64(d)), true)
+				r.Label(fmt.Sprintf("deep.depth=%d", d))
+				if err != nil {
+					r.Fail(c, err)
+				}
+			}
+		}
 	})
 }
